@@ -32,6 +32,7 @@ Record ccase := {
   cc_cb : list (N * N * N);      (* the same for an event with per-event wrapper info and nil salt / info whose own Tags() callback
                                     rotates the filter between the head of Process and the values (the schedule of
                                     CryptoProofs.ewi_fallback_mixes_refuted): (base of the derived wrapper, salt, info) *)
+  cc_caller : bool;              (* the salt / info slices the caller configured the filters of this case with still hold the caller's bytes *)
 }.
 
 Inductive kind :=
@@ -43,6 +44,7 @@ Inductive kind :=
 | CKErr           (* error / no error differs *)
 | CKConsumed      (* rotation payload not consumed *)
 | CKPanic
+| CKCallerSlice   (* observation-only: a rotation wrote into a salt / info slice owned by the caller *)
 | CKAtomic.       (* observation-only: a value produced under concurrent rotation mixes components of different rotations *)
 
 Definition d_enc (k : N) (rnd m : bstr) : bstr := [].
@@ -118,4 +120,5 @@ Definition mismatches (cs : list ccase) : list (N * (N * N * kind)) :=
   flat_map (fun c =>
     map (fun m => (cc_id c, (fst m, 0%N, snd m))) (run_steps false (cc_init c) [] 0%N (cc_steps c))
     ++ (if forallb conc_ok (cc_conc c) then [] else [(cc_id c, (0%N, 1%N, CKAtomic))])
-    ++ (if forallb conc_ok (cc_cb c) then [] else [(cc_id c, (0%N, 2%N, CKAtomic))])) cs.
+    ++ (if forallb conc_ok (cc_cb c) then [] else [(cc_id c, (0%N, 2%N, CKAtomic))])
+    ++ (if cc_caller c then [] else [(cc_id c, (0%N, 0%N, CKCallerSlice))])) cs.
